@@ -3,53 +3,87 @@
 use crate::report::{Acc, Ctx, Report};
 use serde_json::Value as J;
 
-#[cfg(feature = "full")]
-pub mod c06;
-#[cfg(feature = "full")]
-pub mod c07;
-#[cfg(feature = "full")]
-pub mod c08;
-#[cfg(feature = "full")]
-pub mod c15;
-#[cfg(feature = "full")]
-pub mod c20;
+macro_rules! props {
+    ($( $(#[$m:meta])? $name:ident => $id:literal ),* $(,)?) => {
+        $( $(#[$m])? pub mod $name; )*
+        pub fn run(ctx: &Ctx) -> Option<Report> {
+            match ctx.prop.as_str() {
+                $( $(#[$m])? $id => Some($name::run(ctx)), )*
+                _ => None,
+            }
+        }
+        fn replay_dispatch(prop: &str, sub: &str, case: &J, acc: &mut Acc) -> bool {
+            match prop {
+                $( $(#[$m])? $id => { $name::replay(sub, case, acc); true } )*
+                _ => false,
+            }
+        }
+    };
+}
 
-pub fn run(ctx: &Ctx) -> Option<Report> {
-    match ctx.prop.as_str() {
-        #[cfg(feature = "full")]
-        "C06" => Some(c06::run(ctx)),
-        #[cfg(feature = "full")]
-        "C07" => Some(c07::run(ctx)),
-        #[cfg(feature = "full")]
-        "C08" => Some(c08::run(ctx)),
-        #[cfg(feature = "full")]
-        "C15" => Some(c15::run(ctx)),
-        #[cfg(feature = "full")]
-        "C20" => Some(c20::run(ctx)),
-        _ => None,
+props! {
+    c01 => "C01",
+    #[cfg(feature = "full")] c02 => "C02",
+    #[cfg(feature = "full")] c06 => "C06",
+    #[cfg(feature = "full")] c07 => "C07",
+    #[cfg(feature = "full")] c08 => "C08",
+    #[cfg(feature = "full")] c15 => "C15",
+    #[cfg(feature = "full")] c20 => "C20",
+}
+
+/// Run the same property in the binary built without `fast-float-parsing` and merge its
+/// sub-checks into this report.
+pub fn run_nofast_child(ctx: &Ctx, rep: &mut Report) {
+    let bin = match &ctx.nofast_bin {
+        Some(b) if std::path::Path::new(b).exists() => b.clone(),
+        _ => {
+            eprintln!("MACHINERY: the no-fast-float build is not available (MC_NOFAST_BIN)");
+            std::process::exit(2);
+        }
+    };
+    let tmp = format!("{}/target/nofast-{}-{}.json", ctx.verif_dir, ctx.prop, std::process::id());
+    let mut cmd = std::process::Command::new(&bin);
+    cmd.arg(&ctx.prop).arg("--tier").arg(ctx.tier.name()).arg("--emit-json").arg(&tmp);
+    if let Some(o) = &ctx.only {
+        cmd.arg("--only").arg(o);
     }
+    let st = cmd.status();
+    match st {
+        Ok(s) if s.success() => {}
+        other => {
+            eprintln!("MACHINERY: the no-fast-float engine failed: {:?}", other);
+            std::process::exit(2);
+        }
+    }
+    let text = std::fs::read_to_string(&tmp).unwrap_or_else(|e| {
+        eprintln!("MACHINERY: cannot read {}: {}", tmp, e);
+        std::process::exit(2)
+    });
+    let _ = std::fs::remove_file(&tmp);
+    let j: J = serde_json::from_str(&text).unwrap_or_else(|e| {
+        eprintln!("MACHINERY: bad JSON from the no-fast-float engine: {}", e);
+        std::process::exit(2)
+    });
+    rep.absorb_child_json(&j);
 }
 
 /// Re-run exactly one recorded case. Exit 1 if it still violates the property.
 pub fn replay(ctx: &Ctx, j: &J, path: &str) -> i32 {
     let sub = j["sub"].as_str().unwrap_or("");
     let case = &j["case"];
-    let mut acc = Acc::new();
-    match ctx.prop.as_str() {
-        #[cfg(feature = "full")]
-        "C06" => c06::replay(sub, case, &mut acc),
-        #[cfg(feature = "full")]
-        "C07" => c07::replay(sub, case, &mut acc),
-        #[cfg(feature = "full")]
-        "C08" => c08::replay(sub, case, &mut acc),
-        #[cfg(feature = "full")]
-        "C15" => c15::replay(sub, case, &mut acc),
-        #[cfg(feature = "full")]
-        "C20" => c20::replay(sub, case, &mut acc),
-        other => {
-            eprintln!("MACHINERY: no replay for property {:?} in this build", other);
-            return 2;
+    // sub-checks of the no-fast-float build are replayed by that binary
+    if sub.ends_with("-nofast") && !cfg!(feature = "nofast") {
+        if let Some(bin) = &ctx.nofast_bin {
+            let st = std::process::Command::new(bin).arg("replay").arg(path).status();
+            return st.ok().and_then(|s| s.code()).unwrap_or(2);
         }
+        eprintln!("MACHINERY: no-fast-float binary not available for this replay");
+        return 2;
+    }
+    let mut acc = Acc::new();
+    if !replay_dispatch(&ctx.prop, sub, case, &mut acc) {
+        eprintln!("MACHINERY: no replay for property {:?} in this build", ctx.prop);
+        return 2;
     }
     if acc.viols.is_empty() {
         println!("replay: the recorded case no longer violates {} (sub-check {})", ctx.prop, sub);
